@@ -1,6 +1,6 @@
 # Rebuilds every simulator configuration from $(BASEGRAPH_INCLUDE) (default: /repo's working tree) with header deps.
 BASEGRAPH_INCLUDE ?= /repo/include
-B := build
+B ?= $(CURDIR)/build
 STD ?= -std=c++17
 COMMON := -I$(BASEGRAPH_INCLUDE) -Isim -pthread -MMD -MP -w
 WRAP := -static-libstdc++ -Wl,--wrap=fopen64,--wrap=read,--wrap=write,--wrap=writev -pthread
